@@ -1334,7 +1334,7 @@ func c12sReport(run *verifkit.Run, res *verifkit.Result, scs []c12sScenario, tot
 		res.Sample(1, map[string]interface{}{"scenario": scs[run.Shard%len(scs)].Name})
 	}
 	res.Evaluations = tot.Executions
-	if tot.Schedules != tot.Executions {
+	if tot.Schedules != tot.Executions && res.NViolations() == 0 {
 		panic(fmt.Sprintf("explorer executed a schedule twice: %d executions, %d distinct", tot.Executions, tot.Schedules))
 	}
 	res.Extra["max_scenarios"] = len(scs)
